@@ -114,6 +114,8 @@ let () = run_protocol [
       VV (fourier_call o (sch s) (gv sf) (gm ks) (gv z1) (gv z2) (gv nug) (gm pos)) | _ -> failwith "arity");
   "incompr_call", (function [mu; var; n; ks; z1; z2; pos] ->
       VM (incompr_call o (gf mu) (gf var) (gn n) (gm ks) (gv z1) (gv z2) (gm pos)) | _ -> failwith "arity");
+  "ic_value", (function [mu; var; n; ks; z1; z2; dim; d; x] ->
+      VF (ic_value o (gf mu) (gf var) (gn n) (gm ks) (gv z1) (gv z2) (gn dim) (gn d) (gv x)) | _ -> failwith "arity");
   "rm_value", (function [var; n; ks; z1; z2; x] -> VF (rm_value o (gf var) (gn n) (gm ks) (gv z1) (gv z2) (gv x)) | _ -> failwith "arity");
   "fo_value", (function [sf; ks; z1; z2; x] -> VF (fo_value o (gv sf) (gm ks) (gv z1) (gv z2) (gv x)) | _ -> failwith "arity");
   "generate_grid", (function [axes; lens] -> VM (generate_grid o (ragged (gm axes) (izv lens))) | _ -> failwith "arity");
